@@ -150,6 +150,21 @@ package hcldec
 //@ maypanic
 //@ ensures typeOf(ret0) == cty.String
 
+// ---- transforming wrappers (unit U17g) ----
+// The implied type of a transform spec is computed by type-checking the function / evaluating the
+// expression with an unknown argument: not a function of the wrapped type that a contract can
+// state, so it is named by the interface-level spec function implied(s). What is proved: on the
+// path where the wrapped spec reports an error (the function is not run), the placeholder result
+// has the spec's *own* implied type - not the wrapped one.
+// verif:func (*TransformFuncSpec).impliedType
+//@ trusted
+//@ pure
+//@ ensures ret == implied(iface(s))
+// verif:func (*TransformFuncSpec).decode
+//@ nosafety
+//@ requires s.Wrapped != nil
+//@ ensures errType: hasErr(ret1) && !isKnownVal(ret0) ==> typeOf(ret0) == woad(implied(iface(s)))
+
 // ---- block as a map of attributes (unit U17f) ----
 // verif:func (*BlockAttrsSpec).impliedType
 //@ pure
